@@ -6,7 +6,7 @@ from fractions import Fraction
 import z3
 
 from . import values as V
-from .values import Seq, SetV, DictV, Obj, ObjSeq, Func, Module, RangeV, OutOfSubset, Opaque, is_z3
+from .values import Seq, SetV, DictV, Obj, ObjSeq, Func, Module, RangeV, OutOfSubset, Opaque, OptV, is_z3
 
 BUILTINS = {"len", "range", "list", "tuple", "max", "min", "abs", "sum", "int", "float", "bool", "map", "zip",
             "enumerate", "sorted", "reversed", "isinstance", "set", "round", "all", "any", "dict", "str"}
@@ -106,6 +106,30 @@ def _minmax(ex, name, xs, node):
 
 def call_builtin(ex, name, args, kwargs, node):
     S = ex.S
+    if name == "np.isscalar":
+        (x,) = args
+        if isinstance(x, OptV):
+            x = x.val
+        if isinstance(x, Opaque):
+            return ISSCALAR(x.term)
+        if V.is_num(x):
+            return True
+        if isinstance(x, (Seq, Obj)):
+            return False
+        raise OutOfSubset("np.isscalar(%r)" % (x,), node)
+    if name in ("tuple", "np.array", "np.asarray", "len") and args and isinstance(args[0], OptV):
+        args = [args[0].val] + list(args[1:])
+    if name in ("tuple", "np.array", "np.asarray") and args and isinstance(args[0], Opaque):
+        return Opaque((TUPLE_OF if name == "tuple" else ARRAY_OF)(args[0].term))
+    if name in ("np.array", "np.asarray") and args and isinstance(args[0], Seq) and args[0].concrete and len(args[0].items) == 1 \
+            and isinstance(args[0].items[0], (Opaque, OptV)):
+        it = args[0].items[0]
+        it = it.val if isinstance(it, OptV) else it
+        return Opaque(ARRAY_OF(LIST1(it.term)))
+    if name == "len" and args and isinstance(args[0], Opaque):
+        return LEN(args[0].term)
+    if name == "len" and args and isinstance(args[0], Seq) and args[0].concrete and len(args[0].items) == 1 and isinstance(args[0].items[0], (Opaque, OptV)):
+        return 1
     if name == "len":
         (x,) = args
         if isinstance(x, (Seq, ObjSeq)):
@@ -226,6 +250,9 @@ def call_builtin(ex, name, args, kwargs, node):
         return d <= V.to_z3(abs_, True) + V.to_z3(rel, True) * ay
     if name in ("math.isinf", "np.isinf"):
         return isinstance(args[0], V.Inf)
+    if name in ("np.zeros", "np.ones", "np.empty") and isinstance(args[0], Seq) and args[0].concrete and len(args[0].items) >= 2:
+        # multi-dimensional array: an opaque python value (no element-wise reasoning)
+        return Opaque(S.const("ndarray", U))
     if name in ("np.zeros", "np.ones", "np.empty"):
         n = args[0]
         if isinstance(n, Seq) and n.concrete and len(n.items) == 1:
@@ -364,6 +391,19 @@ def elementwise(ex, op, a, b, node):
     return Seq("array", None, n, arr)
 
 
+U = z3.DeclareSort("PyVal")       # opaque python values (points, numpy arrays, user results)
+ISSCALAR = z3.Function("np.isscalar", U, z3.BoolSort())
+ITEM = z3.Function("item", U, z3.IntSort(), U)
+TUPLE_OF = z3.Function("tuple", U, U)
+ARRAY_OF = z3.Function("np.array", U, U)
+LIST1 = z3.Function("list1", U, U)
+LEN = z3.Function("len", U, z3.IntSort())
+
+
+def opaque_item(ex, base, idx, node):
+    return Opaque(ITEM(base.term, V.to_z3(idx)))
+
+
 def opaque_binop(ex, op, a, b, node):
     raise OutOfSubset("arithmetic on opaque values", node)
 
@@ -416,6 +456,7 @@ def call_value_method(ex, o, name, args, kwargs, node):
             k = ex.as_key(args[0], o.dom.sort().domain())
             dflt = args[1] if len(args) > 1 else None
             if dflt is None:
-                raise OutOfSubset("dict.get with None default", node)
+                v = z3.Select(o.val, k)
+                return OptV(z3.Not(z3.Select(o.dom, k)), Opaque(v) if v.sort() == U else v)
             return z3.If(z3.Select(o.dom, k), z3.Select(o.val, k), V.to_z3(dflt, o.val.sort().range() == z3.RealSort()))
     raise OutOfSubset("method %s of %r" % (name, o), node)
